@@ -304,6 +304,21 @@ fn replay_serial(s: &mut Summary, c: &Value) {
     } else if let Ok(Ok(_)) = guarded(|| Serial::from_slice(&hi)) {
         s.violation("serial:accepts-160-bit", format!("serial {hi:02x?} has the top bit set but was accepted"), c.clone());
     }
+    // ... and at every length in between: the same digits followed by 1..16 zero octets (4 to 19 significant octets), so that every
+    // length-dependent path of the conversions (machine-word fast paths included) sees values just above and below its threshold
+    if sa.iter().any(|b| *b != 0) && sa[0] != 0 {
+        for pad in 1..=16usize {
+            let mut v = sa.clone();
+            v.extend(std::iter::repeat(0u8).take(pad));
+            if v.len() <= 20 && !(v.len() == 20 && v[0] & 0x80 != 0) {
+                check_serial(s, c, "mid", &v, &min_der(&v), &big_dec(&v));
+                let mut v1 = v.clone();
+                let n = v1.len();
+                v1[n - 1] = 0xFF;
+                check_serial(s, c, "mid+ff", &v1, &min_der(&v1), &big_dec(&v1));
+            }
+        }
+    }
     s.eval_if(sa != sb, &format!("s{sa:?}{sb:?}"));
 }
 
